@@ -49,7 +49,7 @@ BigTrees == {VStr(x) : x \in EscStrs \cup LongStrs}
             \cup {VArr([i \in 1..n |-> VStr(As(20))]) : n \in {12, 13, 40}}
             \cup {VObj([i \in 1..n |-> <<<<107, 48 + (i \div 10), 48 + Rem(i, 10)>>, VNum(N_frac)>>]) : n \in {9, 17, 33}}
             \cup {Nest(3, VNull), Nest(4, VStr(<<120>>)), Chain1(12, VTrue), Chain1(20, VArr(<<>>)), Chain1(7, VObj(<<>>))}
-            \cup {VNum(n) : n \in NumIds}
+            \cup {VNum(n) : n \in NumIds} \cup {VArr(<<VNum(n)>>) : n \in NumIds} \cup {VObj(<< <<<<107>>, VNum(n)>>, <<<<108>>, VNull>> >>) : n \in NumIds}
 
 \* tokens of tens of kilobytes: the print buffer passes 64 KiB and single tokens exceed half of it (emission of Render only)
 \* as deep as the parser accepts (CJSON_NESTING_LIMIT = 1000 containers, a value inside the innermost one) and deeper (construction API)
